@@ -31,7 +31,7 @@ TABLE = {
     'RangeStatement::<P>::init': {
         'expected': [((), P('is_power_of_two', 'len(p2)')), ((), ('cmp', 'Eq', 'len(p2)', 'len(p3)')),
                      ((), ('cmp', 'Le', 'len(p2)', 'p1.bp_gens.party_capacity')),
-                     ((('is_some', 'p4', True),), ('cmp', 'Le', 'len(p2)', '1'))],
+                     ((('succ', 'p4'),), ('cmp', 'Le', 'len(p2)', '1'))],
         'extra': [],
     },
     'RangeWitness::init': {
